@@ -44,7 +44,7 @@ def grids_nd(ctx):
     return gs
 
 
-def _mk(Ls, counts, layers, periodic=True):
+def _mk(Ls, counts, layers, periodic=True, given=None):
     import jellyfysh.setting as setting
     from jellyfysh.setting import hypercuboid_setting
     from jellyfysh.activator.internal_state.cell_occupancy.cells.cuboid_periodic_cells import CuboidPeriodicCells
@@ -52,7 +52,8 @@ def _mk(Ls, counts, layers, periodic=True):
     from ..env import init_setting
     init_setting(Ls)
     cls = CuboidPeriodicCells if periodic else CuboidCells
-    return cls(cells_per_side=list(counts), neighbor_layers=layers)
+    # given < dimension: the documented shorthand "missing directions use the first entry"
+    return cls(cells_per_side=list(counts)[:given] if given else list(counts), neighbor_layers=layers)
 
 
 def check_1d(case):
@@ -139,15 +140,18 @@ def _ident_index(ident, counts):
 def check_nd(case):
     """case = ("gridn", Ls, counts, layers, periodic)"""
     import jellyfysh.setting as setting
-    _, Ls, counts, layers, periodic = case
+    _, Ls, counts, layers, periodic = case[:5]
+    given = case[5] if len(case) > 5 else None
     dim = len(Ls)
     fails = []
 
     def bad(key, msg):
         if len(fails) < 30:
-            fails.append((key, "L=%r cells=%r layers=%d periodic=%r: %s" % (Ls, counts, layers, periodic, msg)))
+            fails.append((key, "L=%r cells=%r%s layers=%d periodic=%r: %s"
+                          % (Ls, counts, " (given as %r)" % (list(counts)[:given],) if given else "", layers, periodic,
+                             msg)))
     try:
-        cells = _mk(Ls, counts, layers, periodic)
+        cells = _mk(Ls, counts, layers, periodic, given)
     except Exception as e:
         bad("build-exception", "constructing the cell system raised %r" % (e,))
         setting.reset()
@@ -270,6 +274,11 @@ def cases(ctx):
     for Ls, counts, layers in grids_nd(ctx):
         yield ("gridn", Ls, counts, layers, True)
         yield ("gridn", Ls, counts, layers, False)
+    # shorthand cells_per_side (fewer entries than dimensions; the rest repeat the first) in cubic and non-cubic boxes
+    for Ls, counts, given in (((1.0, 1.0, 1.0), (4, 4, 4), 1), ((1.0, 2.0), (3, 3), 1), ((2.0, 1.0, 3.0), (5, 5, 5), 1),
+                              ((1.0, 0.5, 2.0), (4, 3, 4), 2), ((3.0, 2.0), (6, 6), 1)):
+        yield ("gridn", Ls, counts, 1, True, given)
+        yield ("gridn", Ls, counts, 1, False, given)
 
 
 def run(ctx):
